@@ -12,7 +12,9 @@ MANIFEST = dict(
     text="TLC checks SignCache.tla (two goroutines, every interleaving of the cache steps: EmittedValid holds with the mutex, is violated without it - negative control) "
          "and the sequential engine model; concurrent runs of a REAL deputy node (2 block inserters, 2 confirm inserters, a miner thread, a reader thread, the engine's own "
          "background goroutines) are recorded under chainLock and validated by TLC as a sequential history of the C03/C02 monitor; every emitted confirm is checked to be the "
-         "node's own signature over a block it holds; 98 gated two-goroutine schedules are forced on the real SignBlock; thorough adds Go race-detector builds of the same runs.",
+         "node's own signature over a block it holds; 98 gated two-goroutine schedules are forced on the real SignBlock; gated rounds make a mining request queue on chainLock behind an "
+         "InsertBlock that moves the head; FileQueue.tla (store read path vs. background writer and done-notice handler: ReadLatest) is model-checked and every transition of its state graph is "
+         "realised on the real store by holding the writer at barrier records; thorough adds Go race-detector builds of the same runs.",
     note="Linearizability is judged on the lock-ordered sequence of engine calls (hook under chainLock, sequence number under the same lock). 'No unsynchronised access' is decided "
          "by the race detector on the recorded runs only (thorough tier) - a TLA+ spec cannot express Go memory accesses. Which interleavings the OS schedules is not controlled, except SignBlock's.",
     technique="TLA+ model checking (SignCache.tla, Consensus.tla) + TLC trace validation of hook-linearised concurrent runs of the real engine (TraceEngineConc.tla, TraceSignCache.tla) + gated schedule replay")
@@ -26,6 +28,15 @@ def run(ctx):
         raise vlib.Broken("negative control: unlocked SignCache should violate EmittedValid, got %s" % neg["inv"])
     ctx.extra["negative_control_unlocked_signcache_violates"] = neg["inv"]
     ctx.tlc_exhaustive("MCConsensus", "MCConsensus_n3d3s2.cfg", timeout=900)
+    # the store's read path under its two background goroutines: FileQueue.tla schedules forced on the real store
+    fdot = ctx.path("filequeue.dot")
+    ctx.tlc_exhaustive("FileQueue", "FileQueue_FALSE.cfg", timeout=300, workers=4, dump=fdot)
+    negq = ctx.tlc("FileQueue", "FileQueue_TRUE.cfg", timeout=300, workers=4, expect_ok=False)
+    if negq["inv"] != "ReadLatest":
+        raise vlib.Broken("negative control: FileQueue with EarlyDrop should violate ReadLatest, got %s" % negq["inv"])
+    qfiles, qsumm = ctx.replay("filequeue", graph=fdot, shards=16, maxlen=12, timeout=1800)
+    ctx.validate("TraceFileQueue", "TraceFileQueue.cfg", qfiles, what="writer/notice-handler schedules on the real store", timeout=900)
+    ctx.extra["filequeue"] = dict(graph_edges=qsumm["graph_edges"], behaviours=qsumm["behaviours"], steps=qsumm["steps"])
     # gated schedules on the real SignBlock
     sg = ctx.path("traces", "signgate.ndjson")
     rr = ctx.drive("signblock-gate", ["-out", sg])
